@@ -504,12 +504,20 @@ def opd_cases(ctx):
             if n in names:
                 out.append({'kind': 'opd', 'sample': n, 'field': -1 if i % 2 == 0 else 0, 'family': FAMILIES[(i + 1) % 3],
                             'N': 37 if i % 2 == 0 else ctx.rng.randint(4, 37), 'rings': 6})
+        # the same with a physical aperture on the stop surface that blocks the outer rays (the decomposition is of
+        # the sampled OPD of *all* rays, blocked or not: the code fits data[0][0][0] as it is)
+        for i, n in enumerate(pick[:3]):
+            if n in names:
+                out.append({'kind': 'opd', 'sample': n, 'field': 0, 'family': FAMILIES[i % 3], 'N': 37, 'rings': 6,
+                            'stopdown': ctx.rng.choice([0.5, 0.75, 0.9])})
     else:
         for n in names:
             for fi in (0, 1, -1):
                 for fam in FAMILIES:
                     out.append({'kind': 'opd', 'sample': n, 'field': fi, 'family': fam,
                                 'N': ctx.rng.choice([37, 37, ctx.rng.randint(1, 37)]), 'rings': ctx.rng.choice([6, 9, 15])})
+            out.append({'kind': 'opd', 'sample': n, 'field': 0, 'family': ctx.rng.choice(FAMILIES), 'N': 37,
+                        'rings': ctx.rng.choice([6, 9]), 'stopdown': ctx.rng.choice([0.5, 0.75, 0.9])})
     return out
 
 
@@ -519,9 +527,18 @@ def run_opd(ctx, cases):
     for case in cases:
         name = case['sample']
         try:
-            if name not in built:
-                built[name] = lensgen.build_case({'sample': name})
-            optic = built[name]
+            if case.get('stopdown'):
+                from optiland.physical_apertures import RadialAperture
+                optic = lensgen.build_case({'sample': name})
+                si = optic.surface_group.stop_index
+                ya, _ = optic.paraxial.marginal_ray()
+                optic.surface_group.surfaces[si].aperture = RadialAperture(
+                    r_max=case['stopdown'] * abs(float(np.ravel(ya)[si])))
+                ctx.count('opd: stop surface carries a blocking aperture')
+            else:
+                if name not in built:
+                    built[name] = lensgen.build_case({'sample': name})
+                optic = built[name]
             fields = optic.fields.get_field_coords()
             fi = case['field']
             if fi >= len(fields):
